@@ -143,6 +143,9 @@ func (l *Gpos6_1) apply(ctx *Context, a, b int) int {
 	if p < 0 {
 		return -1
 	}
+	if int(mark1Record.Class) >= len(l.Mark2Array[mark2Idx]) {
+		return -1
+	}
 	mark2Record := l.Mark2Array[mark2Idx][mark1Record.Class]
 	if mark2Record.IsEmpty() {
 		// TODO(voss): verify that this is what others do, too.
